@@ -25,6 +25,8 @@ def run(ctx):
     ctx.call(GR.dependency_provenance, "1")
     ctx.call(GR.branch_edges, "3")
     ctx.call(GR.cloning, "4")
+    ctx.call(GR.reclone_source, "4r")
+    ctx.call(GR.bridged_form_anchored, "7a")
     ctx.call(GR.dependency_lookup, "6")
     ctx.call(GR.index_consistency, "5")
     ctx.call(GR.name_forms, "7n")
